@@ -82,6 +82,26 @@ func typeShape(s *core.StructSpec) (containers, structs, fields int, labels []st
 			seen["id>=4096"] = true
 		}
 	}
+	wideCheck := func(st *core.StructSpec) {
+		nreq := 0
+		for _, f := range st.Fields {
+			if f.Req == core.Required {
+				nreq++
+			}
+		}
+		if len(st.Fields) > 64 {
+			seen["fields>64"] = true
+		}
+		if nreq > 64 {
+			seen["required>64"] = true
+		}
+	}
+	wideCheck(s)
+	s.WalkTypes(func(t *core.TypeSpec) {
+		if t.Kind == core.KStruct && t.Struct != nil {
+			wideCheck(t.Struct)
+		}
+	})
 	if s.Holder {
 		seen["holder"] = true
 	}
